@@ -249,6 +249,27 @@ pub fn generate(rng: &mut Rng, tier: Tier, stats: &mut GenStats) -> Scenario {
         }
         cluster = true;
     }
+    // Twin directories with a fault listed first in some of them, under a glob whose middle
+    // component is a literal: what the walk learns in one twin must not be carried into the next
+    // across an error item.
+    let mut twins: Option<String> = None;
+    if links == LinkMode::All && model0.is_dir_node(&base) && g.rng.chance(5, 100) {
+        let lit = g.names[0];
+        let tw: Vec<String> = (0..g.rng.range(2, 4)).map(|i| join(&base, &format!("t{}", i))).collect();
+        if !tw.iter().any(|d| tree.iter().any(|n| n.path == *d)) && tw.iter().all(|d| d.len() < 2500) {
+            for (i, d) in tw.iter().enumerate() {
+                tree.push(Node { path: d.clone(), kind: Kind::Dir, mode: None });
+                tree.push(Node { path: join(d, lit), kind: Kind::Dir, mode: None });
+                tree.push(Node { path: join(&join(d, lit), "x.txt"), kind: Kind::File, mode: None });
+                if i > 0 || g.rng.chance(1, 3) {
+                    // (`!` sorts before every other name of the pool)
+                    let target = if g.rng.chance(1, 2) { "nowhere".to_string() } else { "..".to_string() };
+                    tree.push(Node { path: join(d, "!first"), kind: Kind::Link { target }, mode: None });
+                }
+            }
+            twins = Some(format!("*/{}/{}", wax::escape(&lossy(lit)), if g.rng.chance(1, 2) { "*" } else { "**" }));
+        }
+    }
     // (under a base that is a link every path is spelled through that link: permission faults are
     // kept out of such scenarios, as they are kept out from beneath links in general, §10.3)
     if model0.is_dir_node(&base) {
@@ -290,6 +311,10 @@ pub fn generate(rng: &mut Rng, tier: Tier, stats: &mut GenStats) -> Scenario {
             break;
         }
     }
+    if let Some(expr) = &twins {
+        w.source = Source::Glob { expr: expr.clone(), rooted: false };
+        w.link = Link::ReadTarget;
+    }
     let mut victims: Vec<String> = Vec::new();
     if g.rng.chance(6, 10) {
         w.erased = g.rng.chance(1, 3);
@@ -315,8 +340,12 @@ pub fn generate(rng: &mut Rng, tier: Tier, stats: &mut GenStats) -> Scenario {
     }
     w.victims = victims;
     w.order = g.order(true);
+    if twins.is_some() && g.rng.chance(2, 3) {
+        // faults first among their siblings
+        w.order = if g.rng.chance(1, 2) { Order::Lex } else { Order::VictimFirst(g.rng.next_u64()) };
+    }
     let deepest = tree.iter().map(|n| depth_of(&n.path)).max().unwrap_or(1);
-    match g.rng.below(100) {
+    match g.rng.below(if twins.is_some() { 200 } else { 100 }) {
         0..=14 => w.depth = Depth::Max(g.rng.range(1, deepest + 1)),
         // a minimum depth hides entries, never errors: a fault above the minimum is still reported
         15..=24 => w.depth = Depth::Min(g.rng.range(1, deepest.max(2) - 1)),
